@@ -1,6 +1,7 @@
-//! Entry points for the libFuzzer targets in /verif/fuzz: the fuzzer's bytes are used as the random stream of
-//! the same proptest strategies the checks use (pass-through RNG), the case runs through the same interpreter and
-//! oracle, and a failure that is not a recorded known finding is saved as a replay file and aborts the target.
+//! Entry points for the libFuzzer targets in /verif/fuzz: the fuzzer's bytes are decoded (arbitrary::Unstructured,
+//! hand-written decoders next to each strategy, same shapes and ranges) into the same case types the proptest stage
+//! generates, the case runs through the same interpreter and oracle, and a failure that is not a recorded known
+//! finding is saved as an ordinary JSON replay file (the decoded case) before the target aborts.
 use crate::engine::*;
 use crate::props;
 use serde::Serialize;
@@ -79,31 +80,31 @@ pub fn one(id: &str, sub: &str, data: &[u8]) {
     EXECS.fetch_add(1, Ordering::Relaxed);
     match (id, sub) {
         ("C05", "inbound") => {
-            if let Some(c) = case_from_bytes(&props::c05::inbound_case(), data) {
+            if let Some(c) = props::c05::decode_inbound(data) {
                 let v = guarded(id, sub, &c, props::c05::check_inbound);
                 judge(id, sub, &c, v);
             }
         }
         ("C05", "core") => {
-            if let Some(c) = case_from_bytes(&props::c05::core_case(), data) {
+            if let Some(c) = props::c05::decode_core(data) {
                 let v = guarded(id, sub, &c, props::c05::check_core);
                 judge(id, sub, &c, v);
             }
         }
         ("C07", "corrupt") => {
-            if let Some(c) = case_from_bytes_tail(&props::c07::case(), data, 1 << 20) {
+            if let Some(c) = props::c07::decode(data) {
                 let v = guarded(id, sub, &c, props::c07::check);
                 judge(id, sub, &c, v);
             }
         }
         ("C19", "addr") => {
-            if let Some(c) = case_from_bytes(&props::c19::addr_case(), data) {
+            if let Some(c) = props::c19::decode_addr(data) {
                 let v = guarded(id, "ipv4_random", &c, props::c19::check_one);
                 judge(id, "ipv4_random", &c, v);
             }
         }
         ("C19", "malformed") => {
-            if let Some(c) = case_from_bytes(&props::c19::bad_case(), data) {
+            if let Some(c) = props::c19::decode_bad(data) {
                 let v = guarded(id, sub, &c, props::c19::check_bad);
                 judge(id, sub, &c, v);
             }
@@ -115,13 +116,13 @@ pub fn one(id: &str, sub: &str, data: &[u8]) {
             }
         }
         ("C06", "history") => {
-            if let Some(c) = case_from_bytes_tail(&props::c06::case(24), data, 1 << 20) {
+            if let Some(c) = props::c06::decode(data) {
                 let v = guarded(id, sub, &c, props::c06::check);
                 judge(id, sub, &c, v);
             }
         }
         ("C02", "engine") => {
-            if let Some(c) = case_from_bytes_tail(&props::c02::case(60), data, 1 << 20) {
+            if let Some(c) = props::c02::decode(data) {
                 let v = guarded(id, sub, &c, props::c02::check);
                 judge(id, sub, &c, v);
             }
